@@ -126,6 +126,17 @@ example : forward (fun n : Nat => n != 0) "zip" ⟨[.arg 1, .arg 2], [("strict",
 example : forward (fun n : Nat => n != 0) "zip" ⟨[.arg 1, .arg 2], [("strict", .arg 0)]⟩
     = .ok ⟨"zip", ⟨[.arg 1, .arg 2], []⟩, true⟩ := rfl
 
+/-- Remark (outside the property, which quantifies over calls the builtin accepts): the overloads are
+more permissive than the builtins — `abs(x=v)` and `sorted(xs, k, r)` are TypeErrors for the builtin
+but go through the overload. -/
+example : (∀ form ∈ spec "abs", accepts form (⟨[], [("x", .arg 1)]⟩ : CallShape Nat) = false) ∧
+    forward (fun _ : Nat => true) "abs" ⟨[], [("x", .arg 1)]⟩ = .ok ⟨"abs", ⟨[.arg 1], []⟩, true⟩ := by
+  refine ⟨by decide, rfl⟩
+example : (∀ form ∈ spec "sorted", accepts form (⟨[.arg 1, .arg 2, .arg 3], []⟩ : CallShape Nat) = false) ∧
+    forward (fun _ : Nat => true) "sorted" ⟨[.arg 1, .arg 2, .arg 3], []⟩
+      = .ok ⟨"sorted", ⟨[.arg 1], [("key", .arg 2), ("reverse", .arg 3)]⟩, true⟩ := by
+  refine ⟨by decide, rfl⟩
+
 /-- Counterexample to the full statement: `enumerate(iterable=xs, start=n)` is accepted by the
 builtin's signature but the overload raises TypeError (unexpected keyword `iterable`). -/
 theorem C14_forward_counterexample :
